@@ -103,6 +103,15 @@ class RVec:
         return f'vec{self.items}'
 
 
+class Blob(RVec):
+    """bytes of an encoded message, kept as abstract wire records"""
+    __slots__ = ('records',)
+
+    def __init__(self, records):
+        self.items = []
+        self.records = records
+
+
 class SliceView:
     """&[T] / &str-of-tokens into an RVec"""
     __slots__ = ('vec', 'lo', 'hi')
@@ -136,6 +145,17 @@ class RString:
 
     def __repr__(self):
         return f'String({self.s!r})'
+
+
+class SymString(RString):
+    """a string known only up to identity: equal iff the 64-bit code is equal (content-addressed digests)"""
+    __slots__ = ('bv',)
+
+    def __init__(self, s, bv):
+        self.s, self.bv = s, bv
+
+    def __repr__(self):
+        return f'SymString({self.s!r})'
 
 
 class Closure:
